@@ -126,7 +126,12 @@ def run(ctx, rep):
         blocked = {(sn[0].id, "T")}
         for a, b, txt in ((seq[0], seq[1], "blotter insert before the runner is charged"), (seq[1], seq[2], "runner charged before PENDING")):
             rep.check(cfgc.dominates(a.id, b.id), "R3", key(cof, None, txt), cof)
-        rep.check(all(cfgc.all_paths_pass(cfgc.entry, cfgc.exit, [x.id], blocked) for x in seq), "R3",
+        # every path that hands an order back went through the three steps (paths that give up - unknown
+        # strategy, unusable reference - return None and touch nothing, which R2 checks)
+        handed = [x for x in cfgc.live_nodes() if x.kind == "return" and x.ast.value is not None
+                  and not (isinstance(x.ast.value, ast.Constant) and x.ast.value.value is None)]
+        rep.check(bool(handed) and all(cfgc.all_paths_pass(cfgc.entry, h.id, [x.id]) for x in seq for h in handed) and
+                  all(cfgc.all_paths_pass(cfgc.entry, cfgc.exit, [x.id] + [r.id for r in cfgc.live_nodes() if r.kind == "return"]) for x in seq), "R3",
                   key(cof, None, "every adopted order is inserted, charged and set PENDING"), cof)
         rc = [s for s in walk_nodes(cof.node.body, ast.Assign) if utext(s.targets[0]) == "runner_context"]
         pc_ = [c for c in calls_in(seq[1], "place")][0]
@@ -199,7 +204,8 @@ def run(ctx, rep):
         own = "markets.markets[order.market_id].blotter"
         gs = [(expanded(pco, g.exprs[0]), pol) for g, pol in cfg.guards(comp[0][0].id)]
         # the blotter is the one of the order's own market, however it is named on the way
-        good = ("order.complete", True) in gs and ("order in %s.live_orders" % own, True) in gs and \
+        good = ("order.complete", True) in gs and (("order in %s.live_orders" % own, True) in gs or
+                                                   ("order in %s._live_orders" % own, True) in gs) and \
             expanded(pco, comp[0][1].func.value) == own and [utext(a) for a in comp[0][1].args] == ["order"]
     rep.check(good, "R4", key(pco, None, "a complete order leaves the live list of its own market, once"), pco)
     from sa.kinds import guard_pairs, gp
